@@ -2,7 +2,7 @@
      Backend.create_test_serialisation (sorted by -priority)  backends.py:1274-1276
      TestHarness.split_suite_string / test_in_suites          mtest.py:1949-1981
      TestHarness.test_suitable                                mtest.py:1983-2005
-     TestHarness.tests_from_args (literal and `*` patterns)   mtest.py:2007-2058
+     TestHarness.tests_from_args (fnmatch with `*` and `?`)   mtest.py:2007-2058
      TestHarness.get_tests (filters, --slice)                 mtest.py:2060-2080
    No proofs in this file. *)
 From MV Require Export Base.Strs.
@@ -82,10 +82,35 @@ Definition arg_pattern (a : str) : str * str :=
   | Some (sp, nm) => ((if nilb sp then star else sp), (if nilb nm then star else nm))
   | None => (star, a)
   end.
-(* fnmatch for the patterns modelled here: `*` alone, or a literal *)
-Definition pmatch (s pat : str) : bool := str_eqb pat star || str_eqb s pat.
+(* fnmatch.fnmatch on POSIX (normcase is the identity; the translated regex must match
+   the whole string): `*` matches any run of characters, `?` exactly one, everything else
+   itself.  Bracket expressions `[...]` are not modelled (generators avoid `[`). *)
+Fixpoint gmatch (pat : str) : str -> bool :=
+  match pat with
+  | [] => fun s => nilb s
+  | c :: pat' =>
+      if (c =? 42)%N then
+        (fix star (s : str) : bool :=
+           gmatch pat' s || match s with [] => false | _ :: s' => star s' end)
+      else fun s =>
+        match s with
+        | [] => false
+        | d :: s' => ((c =? 63)%N || (c =? d)%N) && gmatch pat' s'
+        end
+  end.
+Definition pmatch (s pat : str) : bool := gmatch pat s.
 Definition arg_matches (t : tdef) (p : str * str) : bool :=
   pmatch (t_project t) (fst p) && pmatch (t_name t) (snd p).
+
+(* mtest.py:2034-2041: for each test, the FIRST matching pattern yields it, then `break`:
+   a test matched by several arguments is yielded once *)
+Fixpoint first_match (t : tdef) (pats : list (str * str)) : list tdef :=
+  match pats with
+  | [] => []
+  | p :: r => if arg_matches t p then [t] else first_match t r
+  end.
+Definition tests_from_args (pats : list (str * str)) (tests : list tdef) : list tdef :=
+  flat_map (fun t => first_match t pats) tests.
 
 Inductive sel (A : Type) := SelOk (l : list A) | SelErr.
 Arguments SelOk {A} l.
@@ -111,8 +136,8 @@ Definition pre_slice (o : selopts) (tests : list tdef) : sel tdef :=
      pattern matching no (suitable) test at all is an error *)
   if negb (forallb (fun p => existsb (fun t => arg_matches t p) t1) pats) then SelErr
   else SelOk (match pats with
-              | [] => t1
-              | _ => filter (fun t => existsb (arg_matches t) pats) t1
+              | [] => t1                          (* mtest.py:2068 `if self.options.args` *)
+              | _ => tests_from_args pats t1
               end).
 
 (* mtest.py:2070-2074 *)
